@@ -101,7 +101,8 @@ def p10(ctx, R):
     spec = {
         "result": {R.reset.qualname: {"assign"}, R.up.qualname: {"aug", "call:append"}, "Parser.__init__": {"assign"}},
         "children": {"Command.__init__": {"assign"}, "Command.addchild": {"aug", "call:append"}},
-        "arguments": {"Command.__init__": {"assign"}, "Command.check_next_arg": {"setitem", "setitem-aug"}},
+        # (setdefault(name, []) is the membership test + store of an empty list in one call)
+        "arguments": {"Command.__init__": {"assign"}, "Command.check_next_arg": {"setitem", "setitem-aug", "call:setdefault"}},
         "extra_arguments": {"Command.__init__": {"assign"}, "Command.check_next_arg": {"setitem"}},
     }
     n = 0
